@@ -56,7 +56,7 @@ def many_sets(draw):
 
 @st.composite
 def strategy_(draw):
-    which = draw(st.sampled_from(['scene'] * 6 + ['many_ceilos'] * 2 + ['many_sets']))
+    which = draw(st.sampled_from(['scene'] * 6 + ['many_ceilos'] * 2 + ['many_sets'] * 2))
     if which == 'scene':
         case = draw(S.scene({'layered': 5, 'degenerate': 4, 'exact_counts': 2, 'merge_chain': 1,
                              'split_candidate': 1, 'ref_window': 1}))
@@ -84,6 +84,13 @@ def strategy_(draw):
             p['save'] = {'stem': 'fig2', 'fmts': draw(st.lists(st.sampled_from(['png', 'pdf', 'svg']), min_size=1,
                                                              max_size=3, unique=True))}
         plots.append(p)
+    # the shapes built for a particular code path always get the plot that exercises it
+    if which == 'many_sets':
+        plots[0]['upto'] = 'layers'
+        if len(plots) > 1:
+            plots[1]['upto'] = 'groups'
+    elif which == 'many_ceilos':
+        plots[0]['upto'], plots[0]['show_ceilos'] = 'raw_data', True
     return {'cls': case['cls'], 'kind': case.get('kind'), 'rows': case['rows'][:260], 'prms': prms, 'plots': plots,
             'geoloc': draw(st.sampled_from([None, 'Geneva', 'Mock data (test)'])),
             'ref_dt': draw(st.sampled_from([None, '2024-01-01 12:00:00']))}
